@@ -250,13 +250,20 @@ def build_posterior(inp):
         centre, scale = c + rs.uniform(-0.3, 0.3, D), rs.uniform(0.5, 1.5)
         funcs.append(lambda x, centre=centre, scale=scale: float(scale * np.linalg.norm(np.asarray(x) - centre)))
         meta.append((R, c, np.asarray(regions[-1].limits, float)))
+    # optimisation bounds as handed to ROMC: None, or a box TIGHTER than the prior support and than the acceptance areas, so that
+    # evaluation points outside the bounds have positive prior density and accepted problems within the cut-off
+    bounds = inp.get('bounds', 'tight')
+    left, right = (None, None) if bounds == 'none' else (np.full(D, -1.0), np.full(D, 1.0)) if bounds == 'tight' else (np.full(D, -4.0), np.full(D, 4.0))
     post = pm.RomcPosterior(regions, funcs, funcs, funcs, funcs, list(range(N)), bool(inp.get('surrogate_used', False)), model_prior(D),
-                            np.full(D, -4.0), np.full(D, 4.0), inp.get('eps', 0.8), inp.get('eps', 0.8), inp.get('eps', 0.8), False)
+                            left, right, inp.get('eps', 0.8), inp.get('eps', 0.8), inp.get('eps', 0.8), False)
     return post, regions, funcs, meta
 
 
+stats = dict(outside_nonzero=0)      # evaluation points outside the optimisation bounds with a non-zero expected density (non-vacuity of that case)
+
+
 def check_posterior(inp):
-    """inp = dict(function=..., D, seed, N, surrogate_used, eps, n2)"""
+    """inp = dict(function=..., D, seed, N, surrogate_used, eps, n2, bounds='tight'|'none'|'wide')"""
     D, eps = inp['D'], inp.get('eps', 0.8)
     try:
         with native.time_limit(60):
@@ -266,7 +273,7 @@ def check_posterior(inp):
     rs = np.random.RandomState(5000 + inp.get('seed', 0))
     which = inp.get('function', 'posterior')
     if which in ('posterior', '_pdf_unnorm_single_point', '_sum_over_indicators', '_sum_over_regions', '_sum_over_regions_indicators'):
-        pts = [np.asarray(p, float) for p in inp['points']] if 'points' in inp else [rs.uniform(-1.5, 1.5, D) for _ in range(inp.get('n_points', 6))]
+        pts = [np.asarray(p, float) for p in inp['points']] if 'points' in inp else [rs.uniform(-1.9, 1.9, D) for _ in range(inp.get('n_points', 16))]
         for th in pts:
             ins = [member(R, c, lim, th)[0] for (R, c, lim) in meta]
             near = any(member(R, c, lim, th, TOL)[0] != member(R, c, lim, th, -TOL)[0] for (R, c, lim) in meta)
@@ -284,8 +291,14 @@ def check_posterior(inp):
             got, err = _call(post._pdf_unnorm_single_point, th)
             if err:
                 return _fail('F6-float-of-1d-array' if err.startswith('TypeError') else 'density-raise', '_pdf_unnorm_single_point raised %s' % err, inp)
+            outside = post.left_lim is not None and bool(np.any(th < post.left_lim) or np.any(th > post.right_lim))
+            stats['outside_nonzero'] += 1 if (outside and exp > 0) else 0
             if abs(float(got) - exp) > 1e-9 * max(1.0, abs(exp)):
-                return _fail('density', '_pdf_unnorm_single_point(%r) = %r, expected prior x count = %r' % (th.tolist(), got, exp), inp)
+                return _fail('density', '_pdf_unnorm_single_point(%r) = %r, expected prior x count = %r (point %s the optimisation bounds)' % (
+                    th.tolist(), got, exp, 'outside' if outside else 'inside / no'), inp)
+            gotb, err = _call(post.pdf_unnorm_batched, th[None, :])
+            if err or abs(float(np.asarray(gotb).ravel()[0]) - exp) > 1e-9 * max(1.0, abs(exp)):
+                return _fail('density-batched', 'pdf_unnorm_batched([%r]) = %r, expected prior x count = %r' % (th.tolist(), err or gotb, exp), inp)
     if which in ('posterior', 'RomcPosterior.sample', '_worker_compute_weight'):
         n2 = inp.get('n2', 4)
         if which == '_worker_compute_weight':       # the per-region worker alone, on draws taken from the regions directly
@@ -323,8 +336,8 @@ def run_posterior(tier, seed, first=True):
     fails = []
     for D in (1, 2, 3):
         for sd in range(seed, seed + seeds):
-            for surr in (False, True):
-                inp = dict(function='posterior', D=D, seed=sd, N=3, surrogate_used=surr, eps=0.8, n2=3)
+            for surr, bounds in ((False, 'tight'), (True, 'tight'), (False, 'none'), (True, 'wide')):
+                inp = dict(function='posterior', D=D, seed=sd, N=3, surrogate_used=surr, eps=0.8, n2=3, bounds=bounds)
                 cases += 1
                 nontriv += 1 if D > 1 else 0
                 f = check_posterior(inp)
@@ -336,7 +349,10 @@ def run_posterior(tier, seed, first=True):
                 break
         if fails and first:
             break
-    return dict(name='posterior', bound='dims 1-3, %d seeds x {actual, surrogate} counting mode, 3 regions, 6 evaluation points, 3 draws per region' % seeds,
+    if not fails and stats['outside_nonzero'] == 0:
+        fails.append(_fail('harness-vacuous', 'no evaluation point outside the optimisation bounds had a non-zero expected density', dict(function='posterior')))
+    return dict(name='posterior', bound='dims 1-3, %d seeds x {actual, surrogate} counting mode x optimisation bounds {tight [-1,1]^D, none, wide}, 3 regions, '
+                                         '16 evaluation points in [-1.9,1.9]^D (%d outside the bounds with non-zero density), 3 draws per region' % (seeds, stats['outside_nonzero']),
                 rule='non-trivial = dimension > 1', cases=cases, nontrivial=nontriv, failures=fails)
 
 
